@@ -200,7 +200,9 @@ def strat_zero(draw, tier):
         a.append(float(f"{lo:.6g}"))
         b.append(float(f"{hi:.6g}"))
         kinds.append(kind)
-    return {"d": d, "margins": margins, "copula": cop, "a": a, "b": b, "kinds": kinds, "axis": axis, "side": side}
+    # the end point may be written 0.0 or -0.0 (equal floats: e.g. a mirrored or negated 0.0)
+    return {"d": d, "margins": margins, "copula": cop, "a": a, "b": b, "kinds": kinds, "axis": axis, "side": side,
+            "negative_zero": draw(st.sampled_from([False, False, True]))}
 
 
 def body_zero(case):
@@ -224,10 +226,13 @@ def body_zero(case):
     POS = "C12/zero-end-point/positive-side-interval-starting-at-zero"
     out = []
 
+    zero = -0.0 if case.get("negative_zero") else 0.0
+
     def piece(lo, hi, key):
         aa, bb = list(a), list(b)
-        aa[k], bb[k] = lo, hi
+        aa[k], bb[k] = (zero if lo == 0 else lo), (zero if hi == 0 else hi)
         m = float(model.mass(list(aa), list(bb)))
+        aa[k], bb[k] = lo, hi  # (the reference is given +0.0)
         if hi == 0.0:
             # (lo, 0] contains the hyperplane x_k = 0 (jumps of the other coordinates alone, which carry mass when the
             # k-th margin has finite activity): it is the straddling rectangle (lo, y] minus the positive piece (0, y]
@@ -237,7 +242,9 @@ def body_zero(case):
             r = ref.mass(a2, b2) - ref.mass(a3, b3)
         else:
             r = ref.mass(aa, bb)
-        g = float(model._mass_nd(list(aa), list(bb)))
+        ab = list(aa), list(bb)
+        ab[0][k], ab[1][k] = (zero if lo == 0 else lo), (zero if hi == 0 else hi)
+        g = float(model._mass_nd(*ab))
         what = None
         if not math.isfinite(m) or m < -tol(m):
             what = f"negative or non-finite mass {m!r} (reference {r!r})"
@@ -265,7 +272,8 @@ def body_zero(case):
 
 
 def classify_zero(case):
-    labels = [case["side"], case["copula"]["type"], f"d={case['d']}", branch_of(case["margins"][case["axis"]])]
+    labels = [case["side"], case["copula"]["type"], f"d={case['d']}", branch_of(case["margins"][case["axis"]]),
+              "end-point=-0.0" if case.get("negative_zero") else "end-point=+0.0"]
     return labels, True
 
 
